@@ -370,6 +370,9 @@ def where(b, *rest):
     # np.where is a function of its argument: the same mask (structurally) gives the same index list
     ci = z3.Int('where_canon')
     key = (z3.simplify(b.elem(ci)).sexpr(), n.sexpr())
+    pw = _param_where(c, b, n, ci)
+    if pw is not None:
+        return (pw,)
     cache = c.ghost.setdefault('where_cache', {})
     if key in cache:
         K, W, P = cache[key]
@@ -377,6 +380,7 @@ def where(b, *rest):
         r.member = lambda v: z3.And(0 <= v, v < n, b.elem(v))
         r.where_of = b
         r.pos = P
+        r.nonneg = True
         return (r,)
     K = c.fresh('wlen', I)
     W = c.fresh_fun('W', I, I)
@@ -392,7 +396,43 @@ def where(b, *rest):
     r.member = lambda v: z3.And(0 <= v, v < n, b.elem(v))
     r.where_of = b
     r.pos = P
+    r.nonneg = True
     return (r,)
+
+
+def register_param_where(c, V, n, name):
+    """Declare np.where(V == key)[0] as a *function of key* for the input vector backed by the z3 function V (length n):
+    KK(key) = number of hits, WW(key, q) = q-th hit, PP(key, i) = rank of hit i.  Same ASSUMED contract as where(), quantified over key."""
+    KK = z3.Function('KK_' + name, I, I)
+    WW = z3.Function('WW_' + name, I, I, I)
+    PP = z3.Function('PP_' + name, I, I, I)
+    k, j, j2, i = z3.Ints('pwk pwj pwj2 pwi')
+    c.assume(z3.ForAll([k], z3.And(0 <= KK(k), KK(k) <= n), patterns=[KK(k)]))
+    c.assume(z3.ForAll([k, j], z3.Implies(z3.And(0 <= j, j < KK(k)), z3.And(0 <= WW(k, j), WW(k, j) < n, V(WW(k, j)) == k)), patterns=[WW(k, j)]))
+    c.assume(z3.ForAll([k, j, j2], z3.Implies(z3.And(0 <= j, j < j2, j2 < KK(k)), WW(k, j) < WW(k, j2)), patterns=[z3.MultiPattern(WW(k, j), WW(k, j2))]))
+    c.assume(z3.ForAll([k, i], z3.Implies(z3.And(0 <= i, i < n, V(i) == k), z3.And(0 <= PP(k, i), PP(k, i) < KK(k), WW(k, PP(k, i)) == i)), patterns=[PP(k, i)]))
+    c.ghost.setdefault('param_where', []).append((V, n, KK, WW, PP))
+    return KK, WW, PP
+
+
+def _param_where(c, b, n, ci):
+    regs = c.ghost.get('param_where')
+    if not regs:
+        return None
+    e = z3.simplify(b.elem(ci))
+    if not z3.is_eq(e):
+        return None
+    l, r = e.arg(0), e.arg(1)
+    for V, vn, KK, WW, PP in regs:
+        for x, key in ((l, r), (r, l)):
+            if z3.is_app(x) and x.decl().eq(V) and x.num_args() == 1 and z3.eq(x.arg(0), ci) and _eq(vn, n) and 'where_canon' not in key.sexpr():
+                res = SArr((KK(key),), lambda jx, key=key: WW(key, jx), 'i', incr=True)
+                res.member = lambda v, key=key: z3.And(0 <= v, v < n, V(v) == key)
+                res.where_of = b
+                res.pos = lambda i_, key=key: PP(key, i_)
+                res.nonneg = True
+                return res
+    return None
 
 
 def _where3(cnd, x, y):
